@@ -446,7 +446,7 @@ Definition find_tname (m : module) (full : bytes) : ctype :=
   else if existsb (fun e => beq (m_name m ++ colons ++ en_name e) full) (m_enums m) then CEnum
   else CNone.
 
-(* checkDepTName: arrays are not descended into (the code's own behaviour) *)
+(* checkDepTName (vectors, maps and - since 08bbde0 - fixed arrays are descended into) *)
 Fixpoint check_tname (m : module) (v : vty) : res vty :=
   match v with
   | VName s _ =>
@@ -457,6 +457,7 @@ Fixpoint check_tname (m : module) (v : vty) : res vty :=
       end
   | VVec k => k' <- check_tname m k ;; Ok (VVec k')
   | VMap k w => k' <- check_tname m k ;; w' <- check_tname m w ;; Ok (VMap k' w')
+  | VArr k len => k' <- check_tname m k ;; Ok (VArr k' len)
   | _ => Ok v
   end.
 
@@ -483,7 +484,7 @@ Definition analyze_default (m : module) (sm : smember) : res smember :=
       let ename := if (count_cc (sm_def sm) =? 0)%nat then sm_def sm else after_cc (sm_def sm) in
       match enum_hits m ename with
       | [(e, mb)] => Ok {| sm_tag := sm_tag sm; sm_req := sm_req sm; sm_ty := sm_ty sm; sm_key := sm_key sm;
-                           sm_def := en_name e ++ [95] ++ upper_first (em_key mb); sm_deft := DName |}
+                           sm_def := upper_first (en_name e) ++ [95] ++ upper_first (em_key mb); sm_deft := DName |}
       | _ => Err
       end
   | _ => Ok sm
